@@ -10,6 +10,7 @@
 package main
 
 import (
+	"bytes"
 	"fmt"
 	"hash/fnv"
 	"os"
@@ -318,10 +319,18 @@ func (rn *runner) checkCase(c Case, sl *slot) {
 
 	// marshalled value → shape → back
 	roundTrip := func(label string, in interface{}, out interface{}, root string, shape func(v interface{}, where string) []shapeErr) {
+		before := kit.DeepCopy(in)
 		data, err := guardedMarshal(rn.cfg, in)
 		if err != nil {
 			rep("roundtrip/marshal-error/"+label, fmt.Sprintf("marshal failed: %v", err))
 			return
+		}
+		// the call itself: input untouched, and the same text when asked again
+		if !reflect.DeepEqual(before, in) {
+			rep("marshal/input-modified/"+label, "the value differs from the deep copy made before marshalling; output "+clip(string(data)))
+		}
+		if again, err := guardedMarshal(rn.cfg, in); err != nil || !bytes.Equal(again, data) {
+			rep("marshal/not-repeatable/"+label, fmt.Sprintf("second marshal of the same value: err=%v %s vs %s", err, clip(string(again)), clip(string(data))))
 		}
 		outputs = append(outputs, data)
 		if sampleText == "" {
